@@ -4,7 +4,8 @@
 
 use crate::canon::V;
 use crate::env::{
-    Setup, EXTRA_VAR_NAMES, FN_NAMES, SHADOW_NAMES, UNBOUND_NAME, UNKNOWN_FN, VAR_NAMES,
+    Setup, EXTRA_VAR_NAMES, FN_NAMES, LONG_UNBOUND_NAME, SHADOW_NAMES, UNBOUND_NAME, UNKNOWN_FN,
+    VAR_NAMES,
 };
 use crate::prog::{AOp, Bin, Expr, Un, ALL_AOP};
 use crate::rng::Rng;
@@ -243,7 +244,13 @@ impl<'a> Gen<'a> {
         if self.cfg.nested_statements && self.rng.percent(10) {
             // computed target: a string literal, a call of the name-returning sentinel, or a
             // sub-chain ending in a string
-            let target = match self.rng.below(4) {
+            let target = match self.rng.below(5) {
+                // not a name at all (`5 = e`): the operands are still evaluated first
+                4 => match self.rng.below(3) {
+                    0 => Expr::Lit(Value::Int(5)),
+                    1 => Expr::Lit(Value::Boolean(true)),
+                    _ => Expr::Lit(Value::Float(1.5)),
+                },
                 0 => Expr::Lit(Value::String(name.clone())),
                 1 | 2 => {
                     let t = self.any_ty();
@@ -338,7 +345,18 @@ impl<'a> Gen<'a> {
     }
 
     fn failing_leaf(&mut self) -> Expr {
-        match self.rng.below(6) {
+        match self.rng.below(9) {
+            6 => Expr::Read(LONG_UNBOUND_NAME.to_string()),
+            7 => Expr::Call(
+                LONG_UNBOUND_NAME.to_string(),
+                Some(Box::new(Expr::Lit(Value::Int(1)))),
+            ),
+            8 => {
+                // an unknown function whose argument has effects (they happen before the failure)
+                let t = self.any_ty();
+                let arg = self.expr(t, 3, 1);
+                Expr::Call(UNKNOWN_FN.to_string(), Some(Box::new(arg)))
+            },
             0 => Expr::Read(UNBOUND_NAME.to_string()),
             1 => Expr::Bin(
                 Bin::Div,
